@@ -872,9 +872,16 @@ func (c *admCase) doOp(op string) string {
 				return "timeout-target"
 			}
 			deadline := time.Now().Add(10 * time.Second)
+			p.state = "attached"
 			for {
 				pv, ok := c.pushView(stream(1), ti)
 				if ok && pv.Session != "" {
+					break
+				}
+				if ok && !pv.IsPushing {
+					// the group refused to attach it and the push goroutine reported its end
+					p.state = "idle"
+					p.origin = nil
 					break
 				}
 				if time.Now().After(deadline) {
@@ -882,7 +889,6 @@ func (c *admCase) doOp(op string) string {
 				}
 				time.Sleep(50 * time.Microsecond)
 			}
-			p.state = "attached"
 		case "pushfail":
 			if p.state != "held" {
 				return "x"
@@ -942,7 +948,7 @@ func (c *admCase) doOp(op string) string {
 			m.Header = base.RtmpHeader{Csid: 6, MsgLen: 4, MsgTypeId: base.RtmpTypeIdAudio, MsgStreamId: 1, TimestampAbs: 100}
 			m.Payload = []byte{0xaf, 0x01, 0x21, 0x00}
 			if err := s.cust.FeedRtmpMsg(m); err != nil {
-				return "e"
+				return "x"
 			}
 		default:
 			return "x"
